@@ -60,19 +60,32 @@ def h_parser(L, parts):
     return 'accepted' if o1[0] == 'ok' else 'rejected'
 
 
-def h_builder(L, n, steps):
+def h_builder(L, n, steps, ty=None, name='n'):
     I = L.I
-    ty = L.sym_bytes('t', n)
-    L.assume_utf8(ty)
-    st = [(m,) + tuple(list(a.encode()) for a in args) for m, *args in steps]
+
+    def mat(x):
+        if isinstance(x, tuple):
+            b = L.sym_bytes(x[1], x[2])
+            if len(x) > 3:
+                L.restrict(b, x[3])
+            L.assume_utf8(b)
+            return b
+        return list(x.encode())
+    if ty is None:
+        ty = L.sym_bytes('t', n)
+        L.assume_utf8(ty)
+    else:
+        ty = list(ty.encode())
+    name = mat(name)
+    st = [(m,) + tuple(mat(a) for a in args) for m, *args in steps]
     kinds = ('String', 'CowB', 'CowO', 'SmallString')
-    reqs = [{'op': 'build', 'T': KINDS[T][1], 'type': SymStr(ty), 'name': SymStr(list(b'n')), 'steps': [[m] + [SymStr(a) for a in args] for m, *args in st]} for T in kinds]
+    reqs = [{'op': 'build', 'T': KINDS[T][1], 'type': SymStr(ty), 'name': SymStr(name), 'steps': [[m] + [SymStr(a) for a in args] for m, *args in st]} for T in kinds]
     req = {'op': 'multi', 'reqs': reqs}
     L.expect_native(req, {})
     outs = []
     try:
         for T in kinds:
-            b = b_new(I, T, mk_type(I, T, ty), list(b'n'))
+            b = b_new(I, T, mk_type(I, T, ty), list(name))
             bad = None
             for m, *args in st:
                 b = b_call(I, T, b, m, *args)
@@ -120,6 +133,27 @@ def queries(tier):
         for steps in ([], [('with_namespace', 'ns'), ('with_version', '1'), ('with_qualifier', 'K', 'v'), ('with_subpath', 's')]):
             qs.append(Query('build String|Cow|SmallString type=⟦%d⟧ %s' % (n, 'full' if steps else 'minimal'), h_builder, {'n': n, 'steps': steps},
                             bound='type string = every valid-UTF-8 string of %d bytes (valid and invalid types), four type parameters on one path' % n))
+    # field values free (type fixed): each PurlShape impl finishes / validates the same parts
+    FULL = [('with_namespace', 'ns'), ('with_version', '1'), ('with_qualifier', 'K', 'v'), ('with_subpath', 's')]
+
+    def addb(name, steps):
+        qs.append(Query('build String|Cow|SmallString %s' % show_steps('Ty', name, steps), h_builder, {'n': 0, 'steps': steps, 'ty': 'Ty', 'name': name},
+                        bound='builder script %s, four type parameters on one path' % show_steps('Ty', name, steps)))
+    for n in lens(3 + deep):
+        h = ('hole', 'h', n)
+        addb(h, [])
+        addb(h, FULL)
+        for meth in ('with_namespace', 'with_version', 'with_subpath'):
+            addb('n', [(meth, h)])
+            addb('n', FULL + [(meth, h)])
+        addb('n', [('with_qualifier', 'k', h)])
+        if n:
+            addb('n', [('with_qualifier', h, 'v')])
+            addb('n', FULL + [('with_qualifier', h, 'v')])
+            addb('n', [('with_qualifier', 'checksum', h)])
+    for n in (4, 5):
+        addb('n', [('with_namespace', ('hole', 'h', n, b'/a'))])
+        addb('n', [('with_subpath', ('hole', 'h', n, b'/.a'))])
     return qs
 
 
